@@ -4,4 +4,8 @@ SerialShim Serial;
 // ::millis() is only reached if some code bypasses SystemClock::clockMillis();
 // the simulator's clocks all override clockMillis(). Returning a constant keeps
 // real time out of the process.
+#ifdef SIM_ULONG32
+extern "C" unsigned int millis() { return 0; }
+#else
 extern "C" unsigned long millis() { return 0; }
+#endif
